@@ -244,7 +244,7 @@ func genBig(r *hx.Rand, n int, split bool) *hx.Case {
 	}
 	target := 0
 	if split {
-		target = total/3 + r.Range(0, 40)
+		target = total/2 + r.Range(0, 40)
 	}
 	ops = append(ops, hx.Op(op{Op: "scan", K: []byte("m0001")}))
 	return &hx.Case{Name: "big", Params: map[string]any{"mode": "c17", "kind": "tab", "target": target, "deep": false, "fp": true}, Ops: ops}
@@ -319,8 +319,8 @@ func (eng) Generate(mode, tier string, r *hx.Rand) []*hx.Case {
 		cs = append(cs, genTab(r.Fork(), r.Range(70, 400), false))
 	}
 	for i := 0; i < nBig; i++ {
-		cs = append(cs, genBig(r.Fork(), 5000+r.Intn(1500), false))
-		cs = append(cs, genBig(r.Fork(), 12000+r.Intn(1500), true))
+		cs = append(cs, genBig(r.Fork(), 2500+r.Intn(300), false))
+		cs = append(cs, genBig(r.Fork(), 5000+r.Intn(300), true))
 	}
 	for i := 0; i < nWal; i++ {
 		cs = append(cs, genWal(r.Fork(), i%3 != 2))
@@ -463,7 +463,7 @@ func execTab(c *hx.Case, ops []op) (*hx.Result, error) {
 		sc, scFail := safeScan(t, nil)
 		rsc, rscFail := safeScan(sst.NewTableFromDocument(fs, neverOwns{}, d), nil)
 		raw := []byte{}
-		if deep {
+		if deep && (i < 2 || i == len(tables)-1) { // raw bytes of at most three tables per case
 			f := fs.Open(d.URI)
 			raw = make([]byte, d.Size)
 			if _, err := f.ReadAt(raw, 0); err != nil && err != io.EOF {
@@ -520,7 +520,7 @@ func execTab(c *hx.Case, ops []op) (*hx.Result, error) {
 					tags = append(tags, "bloom-fp-"+class)
 				}
 			}
-			for i := 0; i < 4000; i++ {
+			for i := 0; i < 9000; i++ {
 				try("before-first", []byte(fmt.Sprintf("a%d", i)))
 				try("after-last", []byte(fmt.Sprintf("z%d", i)))
 				if len(tableKeys[ti]) > 0 {
